@@ -383,6 +383,27 @@ def r14_4_5(rep: Report) -> None:
             rep.fail('R14.5', c2, label, f'expected `{needle}` in the out-of-band listing', mc)
 
 
+def r14_8(rep: Report) -> None:
+    """conversions of event times into the 90 kHz MPEG timebase (SCTE-35 PTS, break duration) multiply
+    before they divide: `v * (MPEG_TIMEBASE // timescale)` is wrong for every timescale that does not
+    divide 90000 (48000, 44100) and zero for timescales above it"""
+    from ..idioms import truncated_scale_ratios
+    n = 0
+    for rel in rep.repo.py_files(EV) + rep.repo.py_files('dashlive/scte35'):
+        for cls_, fn in rep.repo.expanded_functions(rel):
+            sites, bad = truncated_scale_ratios(fn)
+            for site in sites:
+                n += 1
+                construct = f'{rel}::{(cls_.name + ".") if cls_ else ""}{fn.name}'
+                if site in bad:
+                    rep.fail('R14.8', construct, f'ratio:{norm(site)}',
+                             f'`{norm(site)}` truncates the ratio of two timescales before it is applied: PTS and '
+                             'break duration are wrong unless the event timescale divides 90000', site, file=rel)
+                else:
+                    rep.ok('R14.8', construct, f'conversion:{norm(site)[:60]}', 'multiply, then divide')
+    rep.extra['timebase_conversions'] = n
+
+
 def r14_7(rep: Report) -> None:
     """bounded schedules: with count > 0 only the events 0 .. count-1 exist (the manifest lists
     range(count)).  Zone-domain proof that at every construction of an EventMessageBox in
@@ -583,6 +604,7 @@ def analyse(rep: Report) -> None:
     rep.rule('R14.3', 'emsg time field follows the box version', floor=5)
     rep.rule('R14.4', 'event loop step and divisions are guarded positive', floor=3)
     rep.rule('R14.5', 'out-of-band listing shape', floor=6)
+    rep.rule('R14.8', 'event time conversions multiply before dividing', floor=2)
     rep.rule('R14.7', 'in-band events of a bounded schedule have ids below count', floor=1)
     rep.rule('R14.6', 'segment window end: duration of the served fragment, converted as one quantity', floor=2)
     idx = Index(rep.repo, 'dashlive')
@@ -595,3 +617,4 @@ def analyse(rep: Report) -> None:
     r14_4_5(rep)
     r14_6(rep)
     r14_7(rep)
+    r14_8(rep)
